@@ -4,6 +4,7 @@ pub mod c05;
 pub mod c06;
 pub mod c09;
 pub mod c15;
+pub mod c16;
 pub mod hist;
 pub mod names;
 
@@ -38,6 +39,7 @@ const TABLE: &[Entry] = &[
     entry!("C06", "model_checking", 50, 1500, c06),
     entry!("C09", "model_checking", 50, 1500, c09),
     entry!("C15", "exploration", 50, 900, c15),
+    entry!("C16", "model_checking", 50, 1500, c16),
 ];
 
 pub fn dispatch(prop: &str, tier: Tier, replay: Option<&str>) -> i32 {
